@@ -219,7 +219,94 @@ func structCasesV(c *runner.Ctx, k int, kd kindT, firstPrefix string) {
 				e.Field(3).Set(other.Addr())
 				run1("embedded+outer", e.Addr().Interface(), true)
 			}
+			// one object reachable along several paths (two pointer fields, twice in a slice, under two map keys): an
+			// object of its own at every place it is met
+			{
+				pst := reflect.PtrTo(st)
+				sh := reflect.StructOf([]reflect.StructField{
+					{Name: "A", Type: pst, Tag: `valid:"exist"`},
+					{Name: "B", Type: pst, Tag: `valid:"required"`},
+					{Name: "L", Type: reflect.SliceOf(pst), Tag: `valid:"exist"`},
+					{Name: "M", Type: reflect.MapOf(reflect.TypeOf(""), pst), Tag: `valid:"exist"`},
+				})
+				h := reflect.New(sh).Elem()
+				h.Field(0).Set(obj.Addr())
+				h.Field(1).Set(obj.Addr())
+				l := reflect.MakeSlice(reflect.SliceOf(pst), 3, 3)
+				l.Index(0).Set(obj.Addr())
+				l.Index(1).Set(other.Addr())
+				l.Index(2).Set(obj.Addr())
+				h.Field(2).Set(l)
+				m := reflect.MakeMap(reflect.MapOf(reflect.TypeOf(""), pst))
+				m.SetMapIndex(reflect.ValueOf("x"), obj.Addr())
+				m.SetMapIndex(reflect.ValueOf("y"), obj.Addr())
+				h.Field(3).Set(m)
+				run1("shared-pointer", h.Addr().Interface(), true)
+			}
 			c.Sample(func() interface{} { return desc })
+		}
+	}
+}
+
+// twoGroupsViaSet: a member of two groups of the same kind whose ids contain each other (1 and 10), the rules collected
+// with RM.Set one at a time, through the struct, map and URL entry points.
+func twoGroupsViaSet(c *runner.Ctx) {
+	for _, kd := range kindsT[:2] {
+		for _, kind := range []string{"either", "botheq"} {
+			for order := 0; order < 2; order++ {
+				c.Space(fmt.Sprintf("two-groups-via-RM.Set/%s/%s/order%d", kd.name, kind, order))
+				long, short := kind+"=10", kind+"=1"
+				for va := 0; va < 27; va++ {
+					if !c.Take() {
+						continue
+					}
+					build := func(names [3]string) (valid.RM, map[string]string) {
+						rm := valid.NewRule()
+						first, second := long, short
+						if order == 1 {
+							first, second = short, long
+						}
+						rm.Set(names[0], first).Set(names[0], second).Set(names[1], short).Set(names[2], long)
+						return rm, map[string]string{names[0]: first + "," + second, names[1]: short, names[2]: long}
+					}
+					x := va
+					var vals [3]int
+					for i := range vals {
+						vals[i] = x % 3
+						x /= 3
+					}
+					desc := fmt.Sprintf("%s %s order=%d values=%v", kd.name, kind, order, vals)
+					// struct
+					st := reflect.StructOf([]reflect.StructField{{Name: "F0", Type: kd.t}, {Name: "F1", Type: kd.t}, {Name: "F2", Type: kd.t}})
+					o := reflect.New(st)
+					for i := range vals {
+						o.Elem().Field(i).Set(reflect.ValueOf(kd.vals[vals[i]]))
+					}
+					rm, rs := build([3]string{"F0", "F1", "F2"})
+					var err error
+					pan, msg, site := runner.Guard(func() { err = valid.Struct(o.Interface(), rm) })
+					exp := walk.Struct(o.Interface(), walk.Opts{Unscoped: rs})
+					report(c, "struct+RM.Set", desc, canon(exp.Error()), err, pan, msg, site, 2, false)
+					// map / url
+					rm, rs = build([3]string{"k0", "k1", "k2"})
+					var ms []mm
+					mp := reflect.MakeMap(reflect.MapOf(reflect.TypeOf(""), kd.t))
+					var q []string
+					for i := range vals {
+						k := fmt.Sprintf("k%d", i)
+						ms = append(ms, mm{k, vals[i] == 0, kd.strs[vals[i]]})
+						mp.SetMapIndex(reflect.ValueOf(k), reflect.ValueOf(kd.vals[vals[i]]))
+						q = append(q, k+"="+kd.strs[vals[i]])
+					}
+					pan, msg, site = runner.Guard(func() { err = valid.Map(mp.Interface(), rm) })
+					report(c, "Map+RM.Set", desc, mapModel([][]mm{ms}, rs, false), err, pan, msg, site, 2, false)
+					if kd.name == "string" {
+						u := "http://h/p?" + strings.Join(q, "&")
+						pan, msg, site = runner.Guard(func() { err = valid.Url(u, rm) })
+						report(c, "Url+RM.Set", desc+" url="+u, mapModel([][]mm{ms}, rs, true), err, pan, msg, site, 2, false)
+					}
+				}
+			}
 		}
 	}
 }
@@ -408,6 +495,7 @@ func run(c *runner.Ctx) {
 	if c.Thorough() {
 		maxK = 4
 	}
+	twoGroupsViaSet(c)
 	for ki, kd := range kindsT {
 		for k := 2; k <= maxK; k++ {
 			if ki >= 2 && k > 3 && ki < 6 {
